@@ -20,6 +20,7 @@ RULE = ( 'all ground families with 1..2 sources and optionally a lumped load in 
 MIN_EVAL = dict (quick = 100, thorough = 2000)
 ANCHORS  = ['Mininec.compute_far_field', 'Medium.impedance', 'Medium.set_next', 'Mininec.check_ground', 'Mininec.compute_impedance_matrix']
 ANCHORS_REQUIRED = ['Mininec.compute_far_field', 'Medium.impedance', 'Medium.set_next']
+ANCHORS_MIN = {'Mininec.compute_far_field': 0.9}    # the real-ground branch (Fresnel coefficients, media lookup, radial screen)
 ASSUMPTIONS = ['reflection point of a pulse at height z for zenith angle theta lies z tan (theta) from its foot point (computed by the harness)']
 CASE_TIMEOUT = 300
 
